@@ -17,6 +17,10 @@ TRUSTED = ['file I/O and text formatting are not modelled: validated by round tr
 def check_mesh_data(ctx, kind, m, desc, d3):
     """reported face areas / centroids / normals equal those recomputed from the vertices"""
     fr = type(m)(m.vertices, m.faces)
+    for nm in ('face_areas', 'face_centroids') + (('face_normals',) if d3 else ()):
+        val = getattr(m, nm)
+        if isinstance(val, (tuple, list)) and len(val) != len(m.faces):
+            ctx.violation(kind + ':' + nm + ':length', '%d entries of %s for %d faces' % (len(val), nm, len(m.faces)), desc); return False
     fa = m.face_areas
     if isinstance(fa, (int, float)):
         fa = [fa] * len(m.faces)
@@ -149,8 +153,12 @@ def fam_grid(ctx, rng):
 def fam_removal(ctx, rng):
     v, f = Bd.tri_quad_mesh2d(rng)
     d3 = rng.random() < 0.5
-    m = Mesh3D([P3((p[0], p[1], 0.25 * p[0])) for p in v], f) if d3 else Mesh2D([P2(p) for p in v], f)
+    xm = sum(p[0] for p in v) / len(v)
+    # 3D: a folded (non-planar) sheet, so that per-face normals differ from face to face
+    m = Mesh3D([P3((p[0], p[1], 0.25 * p[0] + 0.6 * abs(p[0] - xm))) for p in v], f) if d3 else Mesh2D([P2(p) for p in v], f)
     m.face_areas; m.face_centroids
+    if d3 and rng.random() < 0.7:
+        m.face_normals; m.vertex_normals        # every per-face / per-vertex cache is filled before the removal
     desc = {'vertices': v, 'faces': [list(x) for x in f], '3d': d3}
     op = rng.choice(['remove_vertices', 'remove_faces', 'remove_faces_only', 'triangulated'])
     ctx.count('removal.' + op, key=(len(v), len(f), d3), sample={'op': op, 'faces': len(f)})
